@@ -2,9 +2,13 @@
 """Prints the markdown table of seeded changes and which checks detected them (from seeded/*/meta.json)."""
 import json, os, glob, re
 rows = []
+SUMM = json.load(open("/verif/seeded/SUMMARIES.json")) if os.path.exists("/verif/seeded/SUMMARIES.json") else {}
 for d in sorted(glob.glob("/verif/seeded/*/")):
     m = json.load(open(os.path.join(d, "meta.json")))
     name = os.path.basename(d.rstrip("/"))
+    if name in SUMM and (m.get("summary") != SUMM[name]["summary"] or m.get("needs_to_manifest") != SUMM[name]["needs"]):
+        m["summary"] = SUMM[name]["summary"]; m["needs_to_manifest"] = SUMM[name]["needs"]
+        json.dump(m, open(os.path.join(d, "meta.json"), "w"), indent=1)
     notes = ""
     np_ = os.path.join(d, "notes.md")
     if os.path.exists(np_):
